@@ -19,7 +19,7 @@ RULE = (
     "shared annotation objects are compared with what they were. The model's verdict for each call is the FRESH verdict (declaration, "
     "values, provider values at that moment), so any dependence on history is a disagreement. Threads: 8 threads x 150 calls through "
     "shared decorated functions behind a barrier (one of them behind a provider whose sizes yield to other threads in the middle of every evaluation); each thread's verdict vector must equal its sequential vector. "
-    "One decorator object applied to two definitions with a same-named field (NamedTuple, dataclass, function) vs a decorator object each; a "
+    "A decorated dataclass derived from a dataclass decorated before it / after it / not at all. One decorator object applied to two definitions with a same-named field (NamedTuple, dataclass, function) vs a decorator object each; a "
     "forward reference unresolved at decoration and at the first call, resolved later, vs the same function not called early. "
     "non-trivial = distinct history with >=2 calls"
 )
@@ -162,6 +162,28 @@ def reuse_and_late(run):
                     if got != want:
                         run.findings.append(Finding("failing-input", f"one {kind} decorator object applied to two definitions with a same-named `data`: the {which} one gives {got} for {nm}, "
                                                     f"with a decorator object of its own {want}", Case(f"REUSE\t{kind}\t{which}\t{nm}", "reuse"), got, "", want))
+        # (a') a decorated dataclass deriving from a decorated dataclass: what the derived class checks must not depend on whether
+        # its base was decorated before it, after it, or not at all
+        verdicts = {}
+        for order in ("base first", "derived first", "base undecorated"):
+            nsd = {"typing": typing, "dataclasses": dataclasses, "F2": F2, "I1": I1}
+            exec(compile("@dataclasses.dataclass\nclass Base:\n    data: F2\n@dataclasses.dataclass\nclass Derived(Base):\n    extra: I1\n", "<inherit>", "exec", dont_inherit=True), nsd)  # noqa: S102
+            B0, D0 = nsd["Base"], nsd["Derived"]
+            if order == "base first":
+                dltype.dltyped_dataclass()(B0)
+                D1 = dltype.dltyped_dataclass()(D0)
+            elif order == "derived first":
+                D1 = dltype.dltyped_dataclass()(D0)
+                dltype.dltyped_dataclass()(B0)
+            else:
+                D1 = dltype.dltyped_dataclass()(D0)
+            verdicts[order] = [verdict(D1, vals[a], vals[b2]) for a, b2 in (("f23", "i4"), ("f4", "i4"), ("f23", "f4"), ("i23", "i4"), ("f23", "i23"))]
+            n += 5
+        want = ["ok", "DLTypeNDimsError", "DLTypeDtypeError", "DLTypeDtypeError", "DLTypeNDimsError"]
+        for order, got in verdicts.items():
+            if got != want:
+                run.findings.append(Finding("failing-input", f"a decorated dataclass derived from a dataclass ({order}): constructions give {got}, the fields demand {want}",
+                                            Case(f"INHERIT\t{order}", "inherit"), str(got), "", str(want)))
         # (b) late forward reference
         ns = {"dltype": dltype, "np": np, "An": An}
         src = ("@dltype.dltyped()\ndef early(x: 'Late') -> None:\n    return None\n"
